@@ -90,6 +90,8 @@ pub enum Step {
     /// A backup interrupted before its operation with this index in its own mutating-op sequence
     /// (counted over mutating operations only).
     CrashedBackup(Tree, BOpts, usize),
+    /// The same, but the write that was interrupted leaves its target behind as an empty file.
+    CrashedBackupLeftover(Tree, BOpts, usize),
     /// A block referenced by nothing, holding this content.
     Garbage(Vec<u8>),
     /// Remove a band directory behind conserve's back, to create an id gap.
@@ -219,7 +221,8 @@ pub fn build_scenario(
                 band_src.insert(next, t.clone());
                 complete.insert(next);
             }
-            Step::CrashedBackup(t, o, mk) => {
+            Step::CrashedBackup(t, o, mk) | Step::CrashedBackupLeftover(t, o, mk) => {
+                let leftover = matches!(step, Step::CrashedBackupLeftover(..));
                 let next = Snap::load(&dir).band_ids().last().map(|b| b + 1).unwrap_or(0);
                 // Find the full-trace index of the mk-th mutating operation.
                 let probe_dir = scratch.fresh("probe");
@@ -237,7 +240,7 @@ pub fn build_scenario(
                 let k = *muts
                     .get(*mk)
                     .unwrap_or_else(|| panic!("scenario {name}: only {} mutating ops", muts.len()));
-                let icpt = Icpt::new(&dir, Plan::crash(k, false));
+                let icpt = Icpt::new(&dir, Plan::crash(k, leftover));
                 let out = run::do_backup(&dir, &srcs.dir_for(t), o, Some(&icpt), Flavor::Current);
                 assert!(out.crashed, "scenario {name}: crash did not happen");
                 if Snap::load(&dir).has_head(next) {
@@ -356,6 +359,19 @@ pub fn standard_scenarios(srcs: &SrcCache) -> Vec<Scenario> {
                 Step::CrashedBackup(t3.clone(), s.clone(), 8),
             ],
             t3.clone(),
+            s.clone(),
+            srcs,
+        ),
+        // an EMPTY BANDHEAD (killed write) in the middle of the chain: that band "exists" for
+        // the walk backwards but cannot be opened
+        build_scenario(
+            "S11-b0(T1)+b1(empty-BANDHEAD)+b2(T2,incomplete)+resume-T2",
+            &[
+                Step::Backup(t1.clone(), s.clone()),
+                Step::CrashedBackupLeftover(t2.clone(), s.clone(), 2),
+                Step::CrashedBackup(t2.clone(), s.clone(), 8),
+            ],
+            t2.clone(),
             s.clone(),
             srcs,
         ),
